@@ -5,16 +5,27 @@
 // opcodes end the path; both branches of JUMPI), C17 (what JUMP / JUMPI do with a bad target in strict
 // and permissive mode), C01 (no panic in these bodies).
 //
-// What is real here: the bodies above, `ExecutionThread::{instruction_pointer, current, instruction,
-// jump, at, len}`, `VMThread::fork`'s use of `at`, the whole of `Stack` / `LocatedStackHandle`, `Located`,
-// `Locatable`, `execution::Error`, `KnownWord::value_le`, `Config`.  What is a stand-in: `VM`, `VMThread`,
-// `VMState`, `Memory`, `JumpTargets`, `ValueBuilder`, the value tree (`RSV`, `RSVD`), the `Opcode` trait;
-// every method of a stand-in is an A-CALLEE assumption, listed where it is declared.
+// Extracted from the repository on every run (real text): the nine bodies above; `ExecutionThread::
+// {instruction_pointer, current, instruction, jump, at, len}`; `VMThread::{state_mut, instructions_mut, fork}`;
+// `VMState::{stack_mut, memory_mut, record_value, fork}`; `VM::{jump_targets_mut, fork_current_thread,
+// kill_current_thread, store_error, build, config}`; all of `Stack` / `LocatedStackHandle`; `Located`,
+// `Locatable` and its two impls, `Errors::{new, len, is_empty, add}`, `execution::Error`, `KnownWord::value_le`,
+// `Config`, the opcode structs.
+// Stand-ins (assumptions, each commented A-CALLEE / A-DERIVE / A-ETHNUM where it is declared): the FIELD LISTS
+// of `VM`, `VMThread`, `VMState` (real field names, fields out of reach omitted; the thread queue is split into
+// front + rest); the opaque types `Memory`, `JumpTargets`, `ValueBuilder`, `DynOpcode` with `load_slice`,
+// `fork_to`, `symbolic_exec`, the downcast chain; the value tree `RSV` / `RSVD` with `constant_fold`; the
+// `Opcode` trait reduced to `execute`; and the five VM accessors built on `VecDeque` / closures:
+// `current_thread_mut`, `enqueue_thread`, `instruction_pointer`, `stack_handle`, `state`, `execution_thread_mut`
+// (three of them are written out as a `match` over `current_thread_mut` and checked against their contract).
+// JUMP and JUMPI are verified twice: composed with the real validation (mod control) and against an arbitrary
+// validation outcome (mod control_any_outcome) so that the error-dispatch arms unreachable in the composition
+// are under contract too.
 use vstd::prelude::*;
 use std::rc::Rc;
 use std::sync::Arc;
 //@dropped control.rs: PC, Nop, CallCode/Call/DelegateCall/StaticCall/Create/Create2, store_return_data; every opcode's min_gas_cost/arg_count/as_text_code/as_byte/encode; environment.rs: everything except SelfDestruct::execute
-//@dropped the real VM (src/vm/mod.rs), VMThread, VMState, Memory::load_slice, JumpTargets::fork_to, ValueBuilder::symbolic_exec, constant_fold: used through the A-CALLEE contracts of the abstract VM only; the main loop VM::execute / advance is not under contract
+//@dropped VM::{current_thread_mut, enqueue_thread, instruction_pointer, stack_handle, state, execution_thread_mut} (VecDeque front_mut / closures), Memory::load_slice, JumpTargets::fork_to, ValueBuilder::symbolic_exec, SymbolicValue::constant_fold: A-CALLEE contracts only; the main loop VM::execute / advance (which records errors by mode and retires killed threads) is not under contract; fields of VM/VMThread/VMState outside the listed ones (storage, logged values, visit counters, gas, stored states, watchdog) are out of sight
 //@dropped Rc::as_ref / downcast_rs as_any / Any::is: A-CALLEE methods of the opaque DynOpcode / OpcodeObject / AnyObject stand-ins (no rewrite)
 //@include common/ethnum_prelude.rs
 
@@ -123,6 +134,7 @@ impl ExecutionThread {
             final(self).code() == old(self).code(),
             (target as int) < old(self).code().len() ==> final(self).ip() == target && final(self).wf(),      //@ob C08.ctl.thread_jump.moves_in_range
             (target as int) >= old(self).code().len() ==> final(self).ip() == old(self).ip(),                 //@ob C08.ctl.thread_jump.stays_out_of_range
+            old(self).wf() ==> final(self).wf(),                                                              //@ob C08.ctl.thread_jump.pointer_stays_inside_code
 //@end
 //@extract file=src/disassembly/mod.rs path="impl ExecutionThread|fn at"
 //@ret r
@@ -131,6 +143,7 @@ impl ExecutionThread {
             final(self).code() == old(self).code(),
             (offset as int) < old(self).code().len() ==> final(self).ip() == offset && final(self).wf(),      //@ob C08.ctl.thread_at.moves_in_range
             (offset as int) >= old(self).code().len() ==> final(self).ip() == old(self).ip(),                 //@ob C08.ctl.thread_at.stays_out_of_range
+            old(self).wf() ==> final(self).wf(),                                                              //@ob C08.ctl.thread_at.pointer_stays_inside_code
 //@end
 //@extract file=src/disassembly/mod.rs path="impl ExecutionThread|fn len"
 //@ret r
@@ -542,15 +555,17 @@ use super::{fold, RuntimeBoxedVal, RSVD};
 verus! {
 //@extract file=src/opcode/util.rs path="fn validate_jump_destination"
 //@ret res
-// R-MAPERR: Verus does not support the `|_|` closure pattern nor closure results through map_err: written out as a match
+// R-MAPERR: Verus does not support the `|_|` closure pattern nor closure results through map_err: `X.map_err(|_| { E })?`
+// is written out as `match X { Ok(v) => v, Err(_) => return Err(E) }`; X's argument and E are carried over verbatim ($1, $2).
+// `optional`: if the construct is edited away the text goes to Verus as it is.
 //@rw R-MAPERR optional
 //@old
-u32::try_from(value.value_le()).map_err(|_| {
-                execution::Error::NonExistentJumpTarget { offset: u32::MAX }.locate(instruction_pointer)
+u32::try_from($1).map_err(|_| {
+                $2
             })?
 //@new
-match u32::try_from(value.value_le()) { Ok(v) => v, Err(_) => return Err(
-                execution::Error::NonExistentJumpTarget { offset: u32::MAX }.locate(instruction_pointer)
+match u32::try_from($1) { Ok(v) => v, Err(_) => return Err(
+                $2
             ) }
 //@spec
         ensures
